@@ -499,6 +499,17 @@ func (loc *Location) addFact(ctx *Context, id string, fact Map) (string, error) 
 		Log(WARN, ctx, "Location.AddFact", "location", loc.Name, "uerr", "disabled", "id", id, "factjs", fact)
 		return "", fmt.Errorf("Location is disabled.")
 	}
+	if body, isRule := fact["rule"].(map[string]interface{}); isRule {
+		// A fact with a rule body is a rule: both states find
+		// it for matching events.  So it has to be one that
+		// AddRule would take.  Otherwise every event that
+		// matches its 'when' fails, and the other rules with
+		// that 'when' never run.
+		if _, err := RuleFromMap(ctx, body); err != nil {
+			Log(UERR, ctx, "Location.AddFact", "location", loc.Name, "uerr", err, "id", id, "factjs", fact)
+			return "", err
+		}
+	}
 	timer := NewTimer(ctx, "AddFact")
 	Inc(&loc.stats.TotalCalls, 1)
 	Inc(&loc.stats.AddFacts, 1)
